@@ -41,6 +41,20 @@ ASSUMPTIONS = [
     'the induction over operation histories (every public operation preserves the representation invariant) is a meta-argument over the discharged contracts',
 ]
 PROPERTY_META = {
+    'C02': dict(claimed=True, level='proof',
+                text='Per parameter list of the catalogue: the real emplace_at is proved to write only inside the oracle layout of the element (assigns frame per field, memcpy bounds), the real calculate_element_size is proved to bound every element extent and every next-element start for all varying counts (the two per-element facts from which the N-element/B-byte budget follows by induction), and all pointer/bounds checks of the functions under contract are discharged.',
+                note='Parameter lists are enumerated (catalogue), counts/sizes/addresses are universal up to 65536 items per span. The sum over N elements is an induction written in DESIGN.md, not a CBMC obligation.',
+                design_ref='DESIGN.md 6 C02'),
+    'C03': dict(claimed=True, level='proof',
+                text='Every assume_aligned/__builtin_assume_aligned of the real code is turned into an assertion and discharged inside emplace_at, load_element_at, align_for_first_parameter and the reference accessors, for every SA-aligned element start (block bases aligned to exactly SA) and all counts; field addresses are proved equal to an oracle whose fields are aligned by construction.',
+                note='Enumerated parameter lists; vector-level preservation of SA-aligned element starts is covered by the locator/vector units listed in the evidence.',
+                design_ref='DESIGN.md 6 C03'),
+    'C04': dict(claimed=True, level='proof',
+                text='load_element_at and the reference constructor/data_begin/data_end of the real code are proved to return exactly the in-order, non-overlapping oracle layout with span counts equal to the fixed size / the stored count; emplace_at is proved to write each object inside its oracle range.',
+                note='Enumerated parameter lists; all run-time inputs universal.', design_ref='DESIGN.md 6 C04'),
+    'C05': dict(claimed=True, level='proof',
+                text='Field placement of the real store/load code equals the greedy tight layout (lowest aligned address after the previous field; next element at the lowest SA-aligned address); for lists without VaryingSize calculate_element_size is proved to be exactly the tight size and stride; allocation requests of AllocatorAwarePointer are proved to be exactly the source/new size.',
+                note='Enumerated parameter lists and allocator trait combinations.', design_ref='DESIGN.md 6 C05'),
     'C07': dict(claimed=True, level='proof',
                 text='Every owning operation of the real AllocatorAwarePointer (the only place where vector/element storage is allocated and freed) is proved against a contract over a ghost ledger: one allocation per constructor, deallocation exactly once, with the recorded size, through an allocator equal to the allocating one, for all sizes, ids and all 16 allocator trait combinations.',
                 note='Proved per function for the enumerated allocator trait combinations; trusted: clang lowering, ll2c translation, CBMC, the ledger model in contracts/prelude.c. Vector/element level ownership (address table) see level text and DESIGN.',
